@@ -938,10 +938,8 @@ restore_ownership (void *data)
       _dbus_assert (d->hash_entry != NULL);
       bus_service_relink (d->service, d->hash_entry);
     }
-  else
-    {
-      _dbus_assert (d->hash_entry == NULL);
-    }
+  /* else the service is still in the hash because it has other owners,
+   * and the preallocated entry is freed by free_ownership_restore_data() */
   
   /* We don't need to send messages notifying of these
    * changes, since we're reverting something that was
